@@ -14,6 +14,8 @@ def main(args):
     rec = json.load(open(args[0]))
     prop = rec.get("property", "C00")
     os.environ.setdefault("VERIF_WORK", os.path.join(V.VERIF, "work", "replay"))
+    # a replay run must not clear the replay directory it is reading from, nor overwrite the evidence
+    os.environ.setdefault("VERIF_REPLAYS", os.path.join(V.VERIF, "work", "replay", "replays"))
     ctx = V.Ctx(prop, rec.get("tier", "quick"))
     ok, out = V.coq_build(ctx)
     if not ok:
